@@ -128,8 +128,10 @@ pub fn check_value(r: &Report, p: &Pset, origin: &str) -> Option<Vec<u8>> {
 }
 
 /// output blinding modes respecting the format's acceptance rules
+pub const OUT_MODES: usize = 7;
+
 pub fn apply_out_mode(o: &mut Output, mode: usize, v: u64) {
-    match mode % 4 {
+    match mode % OUT_MODES {
         0 => {}
         1 => {
             // marked for blinding, not yet blinded
@@ -148,12 +150,27 @@ pub fn apply_out_mode(o: &mut Output, mode: usize, v: u64) {
             o.blind_value_proof = Some(rp(v + 1));
             o.blind_asset_proof = Some(sp(v + 1));
         }
-        _ => {
+        3 => {
             // commitments only (explicit amount / asset removed)
             o.amount = None;
             o.asset = None;
             o.amount_comm = Some(comm(v + 1));
             o.asset_comm = Some(generator(v + 1));
+        }
+        4 => {
+            // mixed: explicit amount, committed asset only
+            o.asset = None;
+            o.asset_comm = Some(generator(v + 2));
+        }
+        5 => {
+            // mixed: committed amount only, explicit asset
+            o.amount = None;
+            o.amount_comm = Some(comm(v + 2));
+        }
+        _ => {
+            // marked for blinding with an uncompressed blinding key
+            o.blinding_key = Some(btc_pk_uncompressed(70 + v));
+            o.blinder_index = Some(1);
         }
     }
 }
@@ -187,7 +204,7 @@ pub fn generated_psets(thorough: bool) -> Vec<(String, Pset)> {
             for (ri, row) in rows.iter().enumerate() {
                 for map_size in 1..=2u64 {
                     let mut p = base_pset(n_in, n_out, variant);
-                    let out_mode = (ri + variant) % 4;
+                    let out_mode = (ri + variant + si) % OUT_MODES;
                     for (fi, fld) in glf.iter().enumerate() {
                         if row[fi] {
                             for v in 0..(if fld.map { map_size } else { 1 }) {
@@ -205,11 +222,11 @@ pub fn generated_psets(thorough: bool) -> Vec<(String, Pset)> {
                         }
                     }
                     for (oi, o) in p.outputs_mut().iter_mut().enumerate() {
-                        let mode = (out_mode + oi) % 4;
+                        let mode = (out_mode + oi * 3) % OUT_MODES;
                         for (fi, fld) in outf.iter().enumerate() {
                             // in "marked" modes the five blinding fields are all-or-none: skip the free setters
                             let blinding_field = matches!(fld.name, "value_rangeproof" | "asset_surjection_proof" | "ecdh_pubkey");
-                            if row[glf.len() + inf.len() + fi] && !((mode == 1 || mode == 2) && blinding_field) {
+                            if row[glf.len() + inf.len() + fi] && !((mode == 1 || mode == 2 || mode == 6) && blinding_field) {
                                 for v in 0..(if fld.map { map_size } else { 1 }) {
                                     (fld.set)(o, v + oi as u64);
                                 }
@@ -417,7 +434,7 @@ pub fn run(r: &Report) {
     r.set_rule(
         "value side: strength-2 (pairwise) covering of the presence of all 66 optional/map fields (7 global, 46 input, 13 output) plus \
          all-absent / all-present, map sizes 1 and 2, shapes 0..2 inputs x 0..2 outputs x 3 base variants (plain / issuance / pegin \
-         first input), 4 output blinding modes (explicit, marked, fully blinded, commitments only), every single field alone with both \
+         first input), 7 output modes (explicit, marked, fully blinded, commitments only, explicit amount + committed asset, committed amount + explicit asset, marked with an uncompressed blinding key), compressed and uncompressed public keys in every key-carrying field, every single field alone with both \
          values, tap trees of every shape with <= 5 leaves (distinct and duplicate scripts, mixed leaf versions), ELIP-100/102 accessors, \
          PSETs from from_tx; byte side per encoding: all orderings of the pairs of each map with <= 4 pairs (adjacent transpositions + \
          reversal otherwise), duplication and deletion of every pair, same-key-different-value, input/output count +-1, a map removed / \
